@@ -992,11 +992,9 @@ class Rechunk(ArrayExpr):
 
         elemwise = self.array
         out_ind = elemwise.out_ind
-        chunks = self._chunks
-
-        # Convert dict chunks to tuple for positional indexing
-        if isinstance(chunks, dict):
-            chunks = tuple(chunks.get(i, -1) for i in range(elemwise.ndim))
+        # self.chunks is the settled target (dict / auto / balance resolved): the
+        # inputs must land on exactly the layout this node advertises.
+        chunks = self.chunks
 
         def rechunk_array_arg(arg):
             """Rechunk an array argument to match target output chunks."""
